@@ -34,7 +34,7 @@ let status_str = function Modified -> "modified" | NotModified -> "notmodified" 
 
 let trunc (s : string) : string = if String.length s > 600 then String.sub s 0 600 ^ "..." else s
 
-let run_model (c : case) : (string * jv) list =
+let run_model (parts : string list) (c : case) : (string * jv) list =
   match c.ast_in with
   | None -> [ ("model", JS "no-input") ]
   | Some ast ->
@@ -76,7 +76,13 @@ let run_model (c : case) : (string * jv) list =
                         ("diff_path", JL (List.map (fun i -> JI i) path));
                         ("diff_model", JS (trunc (sexp_string a)));
                         ("diff_impl", JS (trunc (sexp_string b))) ]) in
-           base @ cmp @ proj)
+           let mv =
+             List.map (fun (k, v) -> ("model:" ^ k, v))
+               (Validate.run c.prefix cfg
+                  (List.filter (fun p -> p <> "modified") parts
+                   @ (if t.t_status = Modified then [ "modified" ] else []))
+                  c.src c.ast_in (Some out) None) in
+           base @ cmp @ proj @ mv)
 
 let () =
   let ic = if Array.length Sys.argv > 1 then open_in Sys.argv.(1) else stdin in
@@ -109,7 +115,7 @@ let () =
            let parts = String.split_on_char ',' what in
            let res = ref [ ("id", JS !c.id) ] in
            (try
-              if List.mem "model" parts then res := !res @ run_model !c;
+              if List.mem "model" parts then res := !res @ run_model parts !c;
               res := !res @ Validate.run !c.prefix (config_of !c) parts !c.src
                               !c.ast_in !c.ast_out !c.ast_reparsed
             with
